@@ -5,7 +5,7 @@
    prefix length k of EVERY script, every list of rows, the primary file holds an allowed
    state.  One flush is one atomic write in this model. *)
 From Coq Require Import List ZArith NArith Bool.
-From TF Require Import Base Query Index DB IO proofs.IOP proofs.PlanP.
+From TF Require Import Base Query Index DB IO proofs.IOP proofs.PlanP proofs.HistoryP.
 Import ListNotations.
 
 Theorem C12_crash_atomic : forall old p k,
@@ -34,7 +34,18 @@ Example C12_nonvacuous : exists old p k, p = PlRewrite [] /\ old <> [] /\
   w_disk (run_steps (world_of old) (firstn k (script_of old p))) = [].
 Proof. exact crash_example. Qed.
 
+(* a whole history: a crash at any call of any of its operations leaves the contents after some prefix of the history *)
+Theorem C12_history_crash : forall E C norm ops s i o k, insert_ok E C norm s ops -> nth_error ops i = Some o ->
+  let si := state_after E C norm s (firstn i ops) in
+  let w := run_steps (run_steps (world_of (st_rows s)) (history_script E C norm s (firstn i ops))) (firstn k (op_script E C norm si o)) in
+  let old := st_rows si in let new := st_rows (fst (step E C norm si o)) in
+  w_disk w = old \/ w_disk w = new \/ exists added j, new = old ++ added /\ w_disk w = old ++ firstn j added.
+Proof. exact history_crash. Qed.
+Theorem C12_state_after_is_run : forall E C norm ops s, state_after E C norm s ops = snd (run E C norm s ops).
+Proof. exact state_after_run. Qed.
+
 Print Assumptions C12_crash_atomic.
+Print Assumptions C12_history_crash.
 Print Assumptions C12_crash_states.
 Print Assumptions C12_crash_states_are_prefixes.
 Print Assumptions C12_insert_keeps_old.
